@@ -2,5 +2,5 @@ INIT GenInit
 NEXT GenNext
 CONSTANTS
   N = 3
-  Labels = {"none", "dep", "unselected"}
+  Labels = {"none", "dep", "excluded"}
   Fill = 3
